@@ -4,6 +4,7 @@ package main
 
 import (
 	"fmt"
+	"sort"
 	"go/constant"
 	"go/token"
 	"go/types"
@@ -233,6 +234,11 @@ func (ex *Exec) evalSpec(e *SExpr, env *SpecEnv) (Val, types.Type) {
 				}
 			}
 			return Forall(bvs, body), types.Typ[types.Bool]
+		}
+		if len(bvs) == 1 && bvs[0].sort == BV(64) {
+			if nv, nb, _ := reindexQuant(bvs[0], body); nb != nil {
+				return Exists([]*Term{nv}, nb), types.Typ[types.Bool]
+			}
 		}
 		return Exists(bvs, body), types.Typ[types.Bool]
 	case "sel":
@@ -866,7 +872,29 @@ func (ex *Exec) evalCall(e *SExpr, env *SpecEnv) (Val, types.Type) {
 				}
 				n.vars[p.Name] = specBinding{v, pt}
 			}
-			v, t := ex.evalSpec(d.Body, n)
+			var v Val
+			var t types.Type
+			if d.Opaque && !ex.revealed[d.Name] {
+				// hidden definition: an uninterpreted function of the arguments and of the heap
+				// components its body reads (found by evaluating the body on placeholder arguments,
+				// so that heap reads made while computing the actual arguments do not count)
+				ph := &SpecEnv{ex: ex, pkg: d.Pkg, vars: map[string]specBinding{}, cur: env.cur, old: env.old, slSt: env.slSt, probe: env.probe, depth: env.depth + 1}
+				var fargs []*Term
+				for _, p := range d.Params {
+					b := n.vars[p.Name]
+					ph.vars[p.Name] = specBinding{varVal("opqarg$"+d.Name+"$"+p.Name, b.typ), b.typ}
+					fargs = append(fargs, flat(b.val)...)
+				}
+				pv, pt := ex.evalSpec(d.Body, ph)
+				bt, ok := pv.(*Term)
+				if !ok {
+					specFail("opaque definition %s must be scalar", d.Name)
+				}
+				comps := heapDeps(bt)
+				v, t = App("opq$"+d.Name+"$"+depSig(comps), bt.sort, append(fargs, comps...)...), pt
+			} else {
+				v, t = ex.evalSpec(d.Body, n)
+			}
 			if d.Ret != "" {
 				rt := ex.resolveType(d.Ret, d.Pkg)
 				if t == nil {
@@ -1058,4 +1086,54 @@ func containsTerm(t, x *Term) bool {
 		return false
 	}
 	return walk(t)
+}
+
+// heapDeps: the maximal heap-component sub-terms (arrays indexed by Ref) a term depends on.
+func heapDeps(t *Term) []*Term {
+	var out []*Term
+	seen := map[int]bool{}
+	var walk func(t *Term)
+	walk = func(t *Term) {
+		if seen[t.id] {
+			return
+		}
+		seen[t.id] = true
+		if strings.HasPrefix(t.sort, "(Array Ref") {
+			out = append(out, t)
+			return
+		}
+		for _, a := range t.args {
+			walk(a)
+		}
+	}
+	walk(t)
+	sort.Slice(out, func(i, j int) bool { return compName(out[i]) < compName(out[j]) || (compName(out[i]) == compName(out[j]) && out[i].id < out[j].id) })
+	return out
+}
+
+// compName: the component a heap term belongs to (by its base variable).
+func compName(t *Term) string {
+	for t.op == "store" || t.op == "ite" {
+		if t.op == "ite" {
+			t = t.args[1]
+		} else {
+			t = t.args[0]
+		}
+	}
+	n := t.name
+	for _, p := range []string{"H0$", "H$", "lh$", "hv$"} {
+		n = strings.TrimPrefix(n, p)
+	}
+	if i := strings.LastIndex(n, "!"); i >= 0 {
+		n = n[:i]
+	}
+	return n
+}
+
+func depSig(comps []*Term) string {
+	var names []string
+	for _, c := range comps {
+		names = append(names, compName(c))
+	}
+	return fmt.Sprintf("%d$%08x", len(comps), hashStr(strings.Join(names, ",")))
 }
